@@ -54,7 +54,7 @@ BOUNDS = {
               "leaves, multisets of pairwise distinct sizes), families graded and onepair, sorted plate order; "
               "everywhere else (and n=5) the default answer plus the fully reversed triple order",
               "smallest_shape_product": "means {-1,0,2}^3 x variances {1e-3,1,1e3}^3 x distances {0,1,3}^3 = 19683",
-              "value_families": 6, "max_combos": "C(n,3) and 5000 (both >= C(n,3))", "distance_factor": 1.0,
+              "value_families": 7, "max_combos": "C(n,3) and 5000 (both >= C(n,3))", "distance_factor": 1.0,
               "sparse_large_probe": "one call with 20 plates (1..400 experiments) x 16 posterior samples (560 triples), all four entry points"},
     "thorough": {"n_thetas": [3, 4, 5, 6, 7], "plate_sizes": [1, 2, 3, 4], "max_plates": 4, "plate_orders": "all k!",
                  "relabellings": "all n! for n<=5; identity, reversal, rotation, one swap for n=6,7",
@@ -62,7 +62,7 @@ BOUNDS = {
                  "time with the others unpermuted",
                  "max_chunk": [1, 2, 3, 50], "rng_tree": "as quick, and the scorer 2-call tree on every multiset with <= 3 plates; "
                  "n>=5: default + fully reversed triple order",
-                 "smallest_shape_product": "19683 cases x 2 wrappers", "value_families": 6,
+                 "smallest_shape_product": "19683 cases x 2 wrappers", "value_families": 7,
                  "max_combos": "C(n,3) and 5000", "distance_factor": 1.0, "sparse_large_probe": "as quick"},
 }
 ASSUMPTIONS = [
@@ -88,7 +88,7 @@ ASSUMPTIONS = [
 RTOL = 1e-9
 ATOL = 1e-9
 _MEASURE = None  # offline only: set to {} to record the largest discrepancy per family (never decides a verdict)
-FAMILIES = ["graded", "extreme", "equalmeans", "zerodist", "onepair", "hugegap"]
+FAMILIES = ["graded", "extreme", "equalmeans", "zerodist", "onepair", "hugegap", "offset"]
 ENTRIES = ["hetero", "homo", "kernel", "scorer"]
 
 
@@ -156,6 +156,11 @@ def family_plate(fam, n, p, n_exp):
         # formed as a product over experiments leaves the double range, a sum of logs does not
         base = {"large-hi": (1e3, 3e2), "large-lo": (1e-3, 3e-3), "large-mixed": (1e3, 1e-3)}[fam]
         v = [[base[(t + e) % 2] * (1.0 + 0.01 * t + 0.001 * e) for e in range(n_exp)] for t in range(n)]
+    elif fam == "offset":
+        # all means share a huge common offset (1e6 .. 1e8), the differences between posterior samples stay of order 0.1-1: the
+        # estimator only ever uses differences of means, which are exact for such inputs; a rewrite through moments is not
+        off = (1e6, -3e7, 1e8)[p % 3]
+        m = [[off + x for x in row] for row in m]
     elif fam == "hugegap":
         m = [[1e4 * (t + 1) * (1.0 + 0.1 * e) + p + ((t * t) % 3) * 3e3 for e in range(n_exp)] for t in range(n)]
         v = [[1e-3 * (1.0 + 0.1 * t + 0.05 * e) for e in range(n_exp)] for t in range(n)]
